@@ -167,6 +167,38 @@ pub fn c05_special(rep: &mut Rep) {
     }
 }
 
+/// normalizing an already normalized set changes nothing: the hand-written buildings of the other predicates and the seeded buildings
+/// (multi-service systems with outputs and auxiliaries, cogeneration, several systems per carrier); components compared as a multiset
+/// of printed lines (the order of reassigned auxiliary components follows a hash map)
+pub fn c05_idempotent(rep: &mut Rep, seed: u64) {
+    let mut texts: Vec<String> = crate::gen::extras().iter().map(|s| s.to_string()).collect();
+    texts.extend(crate::gen::random_texts(seed, crate::preds::scale()));
+    texts.push("1,CONSUMO,CAL,ELECTRICIDAD,10,20\n1,CONSUMO,ACS,ELECTRICIDAD,5,5\n1,SALIDA,CAL,3,6\n1,SALIDA,ACS,1,2\n1,AUX,4,8\n2,CONSUMO,REF,ELECTRICIDAD,1,1\n2,AUX,1,1".to_string());
+    for t in &texts {
+        let c1: Components = match t.parse() { Ok(c) => c, Err(_) => continue };
+        rep.evals += 1;
+        // (kind, system, service / carrier / source) -> values, in a stable order; values compared numerically (the printed form has two decimals)
+        let items = |c: &Components| -> Vec<(String, Vec<f32>)> {
+            let mut v: Vec<(String, Vec<f32>)> = c.data.iter().map(|e| match e {
+                Energy::Used(u) => (format!("U {} {:?} {:?}", u.id, u.service, u.carrier), u.values.clone()),
+                Energy::Prod(p) => (format!("P {} {:?}", p.id, p.source), p.values.clone()),
+                Energy::Aux(a) => (format!("A {} {:?}", a.id, a.service), a.values.clone()),
+                Energy::Out(o) => (format!("O {} {:?}", o.id, o.service), o.values.clone()),
+            }).collect();
+            v.sort_by(|a, b| a.0.cmp(&b.0));
+            v
+        };
+        match c1.clone().normalize() {
+            Ok(c2) => {
+                let (a, b) = (items(&c1), items(&c2));
+                let same = a.len() == b.len() && a.iter().zip(&b).all(|(x, y)| x.0 == y.0 && veq(&x.1, &y.1));
+                if !same { let d = a.iter().zip(&b).find(|(x, y)| !(x.0 == y.0 && veq(&x.1, &y.1))).map(|(x, y)| format!("{} {:?} -> {} {:?}", x.0, x.1, y.0, y.1)).unwrap_or_default(); rep.fail("C05.idempotent", t, format!("normalizing the normalized set changes it ({} components before, {} after; first difference: {})", a.len(), b.len(), d)); }
+            }
+            Err(e) => rep.fail("C05.idempotent", t, format!("second normalization fails: {}", e)),
+        }
+    }
+}
+
 /// declared SALIDA / AUX lines are read as written (sign included)
 pub fn c05_outputs(rep: &mut Rep) {
     let text = "1,CONSUMO,CAL,ELECTRICIDAD,10,10,10\n1,SALIDA,CAL,30,0,-1.5\n2,CONSUMO,REF,ELECTRICIDAD,10,10,10\n2,SALIDA,REF,3.0,0.0,-1.5\n-3,CONSUMO,REF,ELECTRICIDAD,1,1,1\n-3,SALIDA,REF,6,3,3\n2,AUX,1,0,2";
@@ -184,6 +216,19 @@ pub fn c05_outputs(rep: &mut Rep) {
 
 /// hand-written systems (clause id per class): auxiliaries of a system whose only use is the fuel of a cogenerator
 pub fn c06_special(rep: &mut Rep) {
+    // the output of one service declared in several lines: the shares follow the summed outputs
+    {
+        let text = "1,CONSUMO,CAL,ELECTRICIDAD,10,10\n1,CONSUMO,ACS,ELECTRICIDAD,5,5\n1,SALIDA,CAL,100,100\n1,SALIDA,CAL,200,0\n1,SALIDA,ACS,100,0\n1,AUX,8,6";
+        rep.evals += 1;
+        match text.parse::<Components>() {
+            Ok(c) => {
+                let of = |srv: Service| -> Vec<f32> { let mut v = vec![0.0f32; 2]; for e in &c.data { if let Energy::Aux(a) = e { if a.id == 1 && a.service == srv { for i in 0..2 { v[i] += a.values[i]; } } } } v };
+                let (cal, acs) = (of(Service::CAL), of(Service::ACS));
+                if !(veq(&cal, &[6.0, 6.0]) && veq(&acs, &[2.0, 0.0])) { rep.fail("C06.proportional", text, format!("auxiliary energy [8, 6] of a system with outputs CAL [100+200, 100+0] and ACS [100, 0]: CAL gets {:?}, ACS gets {:?} (expected [6, 6] and [2, 0])", cal, acs)); }
+            }
+            Err(e) => rep.fail("C06.proportional", text, format!("rejected: {}", e)),
+        }
+    }
     // a system with a negative id (fictitious / reference systems are numbered that way): its auxiliaries are counted like any other
     {
         let text = "1,CONSUMO,CAL,ELECTRICIDAD,100,40\n-1,CONSUMO,VEN,ELECTRICIDAD,40,40\n-1,AUX,4,4\n-2,CONSUMO,ACS,GASNATURAL,9,9\n-2,AUX,1,2";
@@ -305,12 +350,15 @@ const CARRIERS: [&str; 5] = ["ELECTRICIDAD", "GASNATURAL", "BIOMASA", "EAMBIENTE
 fn factor_file(mask: u32, with_exports: u32, rng: &mut Rng) -> (String, Vec<(String, [f32; 3])>) {
     let mut lines = vec![];
     let mut user: Vec<(String, [f32; 3])> = vec![];
-    let mut marker = 0.011f32;
+    // marker values with four decimals (a factor is not a three-decimal quantity: copies of it must be exact)
+    let mut marker = 0.0113f32;
     let mut add = |key: String, lines: &mut Vec<String>, user: &mut Vec<(String, [f32; 3])>| {
-        marker += 0.013;
+        marker += 0.0131;
         let v = [marker, marker * 2.0, marker * 3.0];
-        lines.push(format!("{}, {:.3}, {:.3}, {:.3}", key, v[0], v[1], v[2]));
-        user.push((key, [(v[0] * 1000.0).round() / 1000.0, (v[1] * 1000.0).round() / 1000.0, (v[2] * 1000.0).round() / 1000.0]));
+        let line = format!("{}, {:.4}, {:.4}, {:.4}", key, v[0], v[1], v[2]);
+        let p: Vec<f32> = line.rsplit(',').take(3).map(|x| x.trim().parse().unwrap()).collect();
+        lines.push(line);
+        user.push((key, [p[2], p[1], p[0]]));
     };
     for (i, c) in CARRIERS.iter().enumerate() {
         if mask & (1 << i) == 0 { continue; }
@@ -330,8 +378,9 @@ fn lookup(w: &Factors, key: &str) -> Option<[f32; 3]> {
     let p: Vec<&str> = key.split(',').map(|s| s.trim()).collect();
     w.find(p[0].parse().ok()?, p[1].parse().ok()?, p[2].parse().ok()?, p[3].parse().ok()?).ok().map(|r| [r.ren, r.nren, r.co2])
 }
+/// factors are copied, never computed, by the preparation: compared to f32 precision
 fn feq(a: [f32; 3], b: [f32; 3]) -> bool {
-    eq(a[0], b[0]) && eq(a[1], b[1]) && eq(a[2], b[2])
+    (0..3).all(|i| (a[i] - b[i]).abs() <= 1e-6 * a[i].abs().max(1.0))
 }
 pub fn c07(rep: &mut Rep, seed: u64) {
     let mut rng = Rng(seed ^ 0xFAC7);
@@ -340,7 +389,7 @@ pub fn c07(rep: &mut Rep, seed: u64) {
         for exports in [0u32, 1, 2, 4, 8, 16, 7, 31] {
             for (u1, u2) in [(false, false), (true, false), (true, true)] {
                 let (text, user) = factor_file(mask, exports, &mut rng);
-                let uv = UserWF { red1: if u1 { Some(RenNrenCo2::new(0.5, 0.6, 0.7)) } else { None }, red2: if u2 { Some(RenNrenCo2::new(0.2, 0.3, 0.4)) } else { None } };
+                let uv = UserWF { red1: if u1 { Some(RenNrenCo2::new(0.5004, 0.6003, 0.7002)) } else { None }, red2: if u2 { Some(RenNrenCo2::new(0.2004, 0.3003, 0.0004)) } else { None } };
                 rep.evals += 1;
                 let w = match cte::wfactors_from_str(&text, uv, cte::CTE_USERWF) {
                     Ok(w) => w,
@@ -364,9 +413,9 @@ pub fn c07(rep: &mut Rep, seed: u64) {
                 if mask & 1 != 0 && lookup(&w, forced[4]).map(|v| !feq(v, [1.0, 0.0, 0.0])).unwrap_or(true) { rep.fail("C07.forced", &text, "on-site electricity supply factor is not (1, 0, 0)".into()); }
                 // RED1 / RED2: user > file > default
                 let file_red1 = user.iter().find(|(k, _)| k.starts_with("RED1")).map(|x| x.1);
-                let want1 = if u1 { [0.5, 0.6, 0.7] } else if let Some(v) = file_red1 { v } else { [cte::CTE_USERWF.red1.ren, cte::CTE_USERWF.red1.nren, cte::CTE_USERWF.red1.co2] };
+                let want1 = if u1 { [0.5004, 0.6003, 0.7002] } else if let Some(v) = file_red1 { v } else { [cte::CTE_USERWF.red1.ren, cte::CTE_USERWF.red1.nren, cte::CTE_USERWF.red1.co2] };
                 if lookup(&w, "RED1, RED, SUMINISTRO, A").map(|v| !feq(v, want1)).unwrap_or(true) { rep.fail("C07.red_precedence", &text, format!("RED1 reads {:?}, expected {:?} (user > file > default)", lookup(&w, "RED1, RED, SUMINISTRO, A"), want1)); }
-                let want2 = if u2 { [0.2, 0.3, 0.4] } else { [cte::CTE_USERWF.red2.ren, cte::CTE_USERWF.red2.nren, cte::CTE_USERWF.red2.co2] };
+                let want2 = if u2 { [0.2004, 0.3003, 0.0004] } else { [cte::CTE_USERWF.red2.ren, cte::CTE_USERWF.red2.nren, cte::CTE_USERWF.red2.co2] };
                 if lookup(&w, "RED2, RED, SUMINISTRO, A").map(|v| !feq(v, want2)).unwrap_or(true) { rep.fail("C07.red_precedence", &text, "RED2 does not follow user > file > default".into()); }
                 // export defaults
                 if mask & 1 != 0 {
